@@ -105,11 +105,18 @@ def build_cases(configs: list[dict], tier: str = "quick", seed: int = 1) -> list
         cpp = reference(script)
         for ci, c in enumerate(configs):
             platform, board = pair_for(c["pair"], ok, si)
-            cases.append({"id": f"{name}/{'up' if c['upload'] else 'noup'}/{'pio' if c['pio'] else 'nopio'}/{c['pair']}/{c['fault']}",
-                          "upload": c["upload"], "pio": c["pio"], "pair": c["pair"], "fault": c["fault"],
-                          "platform": platform, "board": board, "port": ok[0], "script": script,
-                          "src": sha(script), "cpp": sha(cpp), "libs": libs,
-                          "expect": c["expect"], "trigger": c["trigger"]})
+            # a failing tool fails in more than one way: ordinary exit statuses and death by a signal (negative
+            # return code of subprocess); the workflow must treat them all as failure
+            rcs = [1]
+            if c["fault"] in ("ProbePio", "Build", "Upload"):
+                rcs = [1, -15] if tier == "quick" else [1, 2, 127, 255, -9, -15]
+            for rc in rcs:
+                cases.append({"id": f"{name}/{'up' if c['upload'] else 'noup'}/{'pio' if c['pio'] else 'nopio'}/{c['pair']}/{c['fault']}"
+                                    + ("" if rc == 1 else f"/rc{rc}"),
+                              "upload": c["upload"], "pio": c["pio"], "pair": c["pair"], "fault": c["fault"], "failrc": rc,
+                              "platform": platform, "board": board, "port": ok[0], "script": script,
+                              "src": sha(script), "cpp": sha(cpp), "libs": libs,
+                              "expect": c["expect"], "trigger": c["trigger"]})
     return cases
 
 
